@@ -37,6 +37,9 @@ const FILTERS: &[&str] = &[
     r#"str_o != "x" xor ipa_o == 1.2.3.4"#,
     r#"any(keepeven1(l_num_m[*])[*] > 0)"#,
     r#"tally1((l_tru_m and l_tru_o)) >= 1"#,
+    // large literal sets (whatever is prepared lazily for them is prepared on first use)
+    r#"num_m in {1 5..10 100..2000 3000..3007 4000..4007 5000..5007 6000..6007 7000..7007 8000..8007 9000..9007 10000..10007 11000..11007 12000..12007 13000..13007 14000..14007 15000..15007 16000..16007 17000..17007 18000..18007 19000..19007 20000..20007 21000..21007 22000..22007 23000..23007 24000..24007 25000..25007 26000..26007 27000..27007 28000..28007 29000..29007 30000..30007 31000..31007 32000..32007 33000..33007 34000..34007 35000..35007 36000..36007 37000..37007 38000..38007 39000..39007 40000..40007 4294967296..4294967297 -9223372036854775808..-9223372036854775800 255 7 2 0 -1 -256}"#,
+    r#"ipa_m in {10.0.0.0/8 172.16.0.0/12 192.168.0.0/16 100.64.0.0/10 169.254.0.0/16 198.18.0.0/15 203.0.113.0/24 192.0.2.0/24 198.51.100.0/24 224.0.0.0/4 240.0.0.0/4 127.0.0.0/8 1.2.3.4 8.8.8.8 ::1 ::ffff:0:0/96 2001:db8::/32 fe80::/10 fc00::/7 ff00::/8 64:ff9b::/96 2002::/16 2001::/32 ::2..::ff}"#,
     // combinators whose deciding operand differs from one context to the next
     r#"str_m contains " crawler/12.5" and http.host contains " crawler/12.5""#,
     r#"str_m contains " crawler/12.x" or http.host contains " crawler/12.x""#,
@@ -140,6 +143,9 @@ enum Mode {
     /// t is always t contexts ahead; even threads read the shared contexts, odd
     /// threads their own clones), free-running between barriers
     Skewed,
+    /// a freshly compiled, never executed filter set per round (compiled by
+    /// thread 0 while the others wait), first executed by all threads at once
+    FreshShared,
 }
 
 fn storm(run: &Run, eng: &Eng, w: &World, mode: Mode, threads: usize, rounds: usize, fam: &str, idx: u64) {
@@ -233,6 +239,77 @@ fn storm(run: &Run, eng: &Eng, w: &World, mode: Mode, threads: usize, rounds: us
     }
 }
 
+/// Every round a new set of filters is compiled (by thread 0, the others wait
+/// at a barrier) and then executed for the very first time by all threads at
+/// once, filter by filter; the expected results are those of a different copy
+/// of the same filters that was only ever executed sequentially.
+fn fresh_storm(run: &Run, eng: &Eng, w: &World, threads: usize, rounds: usize, fam: &str, idx: u64) {
+    let barrier = Barrier::new(threads);
+    let slot: std::sync::RwLock<Vec<Filter>> = std::sync::RwLock::new(Vec::new());
+    let mismatches = AtomicU64::new(0);
+    let execs = AtomicU64::new(0);
+    let first_bad: std::sync::Mutex<Option<serde_json::Value>> = std::sync::Mutex::new(None);
+    let nctx = w.ctxs.len();
+    std::thread::scope(|s| {
+        for tid in 0..threads {
+            let (barrier, slot, mismatches, execs, first_bad) = (&barrier, &slot, &mismatches, &execs, &first_bad);
+            s.spawn(move || {
+                let mut n = 0u64;
+                for round in 0..rounds {
+                    if tid == 0 {
+                        let fresh: Vec<Filter> = w.filters.iter().map(|(t, _)| eng.scheme.parse(t).unwrap().compile()).collect();
+                        *slot.write().unwrap() = fresh;
+                    }
+                    barrier.wait();
+                    {
+                        let fs = slot.read().unwrap();
+                        for fi in 0..fs.len() {
+                            barrier.wait();
+                            for k in 0..nctx {
+                                // even threads all start on the same context, odd ones on different ones
+                                let ci = if tid % 2 == 0 { k } else { (k + tid) % nctx };
+                                let got = fs[fi].execute(&w.ctxs[ci]);
+                                n += 1;
+                                if got != Ok(w.baseline[fi][ci]) {
+                                    mismatches.fetch_add(1, Ordering::Relaxed);
+                                    let mut fb = first_bad.lock().unwrap();
+                                    if fb.is_none() {
+                                        *fb = Some(json!({"filter": w.filters[fi].0, "context": ci, "thread": tid, "round": round,
+                                            "execution_of_this_filter_object_by_this_thread": k,
+                                            "sequential": w.baseline[fi][ci], "concurrent": format!("{:?}", got)}));
+                                    }
+                                }
+                            }
+                        }
+                        let _ = (take_call_log(), take_list_log());
+                    }
+                    barrier.wait();
+                }
+                execs.fetch_add(n, Ordering::Relaxed);
+            });
+        }
+    });
+    run.evaluations.fetch_add(execs.load(Ordering::Relaxed), Ordering::Relaxed);
+    run.counter(&format!("executions_FreshShared_{}threads", threads), execs.load(Ordering::Relaxed));
+    run.counter(&format!("fresh_filter_objects_raced_{}threads", threads), (rounds * w.filters.len()) as u64);
+    let bad = mismatches.load(Ordering::Relaxed);
+    if bad > 0 {
+        let d = first_bad.lock().unwrap().clone().unwrap_or_default();
+        let ftxt = d["filter"].as_str().unwrap_or("?").to_string();
+        run.violation(
+            &format!("C18/concurrent-result-differs/FreshShared/{}", ftxt.chars().take(40).collect::<String>()),
+            "sequential-baseline",
+            fam,
+            idx,
+            json!({"mode": "FreshShared", "threads": threads, "rounds": rounds, "mismatches": bad, "first": d}),
+        );
+    }
+    let errs = take_monitor_errors();
+    if !errs.is_empty() {
+        run.violation("C18/ill-formed-value-under-concurrency", "deep-type-invariant", fam, idx, json!({"errors": errs}));
+    }
+}
+
 pub fn run(run: &Run) {
     let seed = run.opts.seed;
     let eng = Eng::new(rich_env(0));
@@ -318,7 +395,7 @@ pub fn run(run: &Run) {
         12
     };
     let mut idx = 0u64;
-    for mode in [Mode::SharedBoth, Mode::SharedFilter, Mode::Recompile, Mode::Skewed] {
+    for mode in [Mode::SharedBoth, Mode::SharedFilter, Mode::Recompile, Mode::Skewed, Mode::FreshShared] {
         for &t in &thread_counts {
             if run.opts.wants("storm") {
                 if let Some(only) = run.opts.only_index("storm") {
@@ -327,7 +404,12 @@ pub fn run(run: &Run) {
                         continue;
                     }
                 }
-                storm(run, &eng, &w, mode, t, rounds, "storm", idx);
+                if mode == Mode::FreshShared {
+                    let fresh_rounds = if miri { 1 } else if slow { rounds.min(6) } else { rounds * 3 };
+                    fresh_storm(run, &eng, &w, t, fresh_rounds, "storm", idx);
+                } else {
+                    storm(run, &eng, &w, mode, t, rounds, "storm", idx);
+                }
                 run.distinct(hash_str(&format!("{:?}|{}", mode, t)));
             }
             idx += 1;
